@@ -109,14 +109,15 @@ def scenarios(tier):
     return S
 
 
-def pick(cfg, hints):
-    """Action-map indices of the first entry matching each (action type, substring of its options) hint."""
+def pick(cfg, hints, unique=False):
+    """Action-map indices of the first entry matching each (action type, substring of its options) hint (a script may name the
+    same entry twice; an alphabet wants each entry once: unique=True)."""
     blue = [a for a in cfg["agents"] if a["type"] == "proxy-agent"][0]
     amap = blue["action_space"]["action_map"]
     out = []
     for nm, hint in hints:
         for i in sorted(amap):
-            if amap[i]["action"] == nm and hint in str(amap[i].get("options")) and i not in out:
+            if amap[i]["action"] == nm and hint in str(amap[i].get("options")) and not (unique and i in out):
                 out.append(i)
                 break
     return out
@@ -124,7 +125,7 @@ def pick(cfg, hints):
 
 def make_adapter(name, cfg, p, oracles):
     ad = Adapter("c01-%s-%s" % (name, "k%d" % p.get("k", 0) if "H" in p else "bfs"), cfg, oracles,
-                 init_reset_seed=p.get("reset_seed", 3), alphabet=pick(cfg, p["hints"]) if p.get("hints") else None,
+                 init_reset_seed=p.get("reset_seed", 3), alphabet=pick(cfg, p["hints"], unique=True) if p.get("hints") else None,
                  dev_alphabet=core_alphabet(cfg, p.get("core_names")) if p.get("core") else None,
                  extra_params={"scenario_name": name, "p": {k: v for k, v in p.items()}})
     if p.get("script_hints"):
